@@ -826,6 +826,95 @@ fn c03_owned(rng: &mut Rng, acc: &mut Acc) {
     acc.sample(|| info("sample".into()));
 }
 
+/// The per-axis quantile routines called on an OWNED (or shared) array that is itself a slice of a larger
+/// allocation: what the caller holds afterwards - shape, axis order, every lane - is judged through the array
+/// itself, for successful and for erroring calls (an erroring call must leave the array exactly as it was).
+fn c03_owned_arrays(rng: &mut Rng, acc: &mut Acc) {
+    let nd = *rng.pick(&[1usize, 2, 2, 3, 3, 4]);
+    let axis = rng.below(nd);
+    let mut shape: Vec<usize> = (0..nd).map(|_| 1 + rng.below(4)).collect();
+    shape[axis] = 1 + rng.below(7);
+    // error kinds: 0 = none, 1 = invalid q, 2 = empty reduced axis
+    let errk = *rng.pick(&[0usize, 0, 1, 1, 2]);
+    if errk == 2 {
+        shape[axis] = 0;
+    }
+    let total: usize = shape.iter().product();
+    let alpha = *rng.pick(&[2usize, 4, 100]);
+    let data: Vec<Tracked> = (0..total).map(|i| Tracked { key: rng.below(alpha) as u8, id: i as u16 }).collect();
+    let layout = if rng.chance(0.15) { Layout::canonical(nd) } else { Layout::random(nd, rng) };
+    let shared = rng.chance(0.3);
+    let single = rng.chance(0.4);
+    let mut qs: Vec<N64> = (0..if single { 1 } else { rng.below(4) }).map(|_| n64(rng.unit())).collect();
+    if errk == 1 {
+        if qs.is_empty() {
+            qs.push(n64(0.5));
+        }
+        let j = rng.below(qs.len());
+        qs[j] = n64(*rng.pick(&[-0.5, 1.5, 1.0 + 1e-9]));
+    }
+    let expect_err = errk == 1 || (errk == 2);
+    let qa = Array1::from(qs.clone());
+    set_pivots(pick_policy(rng));
+    acc.eval();
+    let e = Embedded::new(&shape, &data, layout.clone());
+    let mut a = e.into_owned_sliced();
+    let before: Vec<(u8, u16)> = a.iter().map(|t| (t.key, t.id)).collect();
+    let (res, after_shape, after): (Result<bool, String>, Vec<usize>, Vec<(u8, u16)>) = if shared {
+        let mut sh = a.into_shared();
+        let keep = sh.clone();
+        let r = catch(|| if single { sh.quantile_axis_mut(Axis(axis), qs[0], &Lower).is_err() } else { sh.quantiles_axis_mut(Axis(axis), &qa, &Higher).is_err() });
+        let kept_ok = keep.shape() == &shape[..] && keep.iter().map(|t| (t.key, t.id)).collect::<Vec<_>>() == before;
+        if !kept_ok {
+            acc.violation("outside_view", None, J::obj(vec![("op", J::s("quantile(s)_axis_mut on a shared ArcArray")), ("shape", J::us(&shape)), ("what", J::s("the other handle changed"))]));
+            return;
+        }
+        (r, sh.shape().to_vec(), sh.iter().map(|t| (t.key, t.id)).collect())
+    } else {
+        let r = catch(|| if single { a.quantile_axis_mut(Axis(axis), qs[0], &Lower).is_err() } else { a.quantiles_axis_mut(Axis(axis), &qa, &Nearest).is_err() });
+        (r, a.shape().to_vec(), a.iter().map(|t| (t.key, t.id)).collect())
+    };
+    let info = |what: String| J::obj(vec![("op", J::s(if single { "quantile_axis_mut on an owned array" } else { "quantiles_axis_mut on an owned array" })), ("shape", J::us(&shape)), ("axis", J::u(axis)), ("layout", layout.to_json()), ("shared", J::B(shared)), ("qs", J::s(format!("{:?}", qs))), ("what", J::s(what))]);
+    acc.count(if expect_err { "owned_array_erroring_calls" } else { "owned_array_successful_calls" });
+    match res {
+        Err(m) => {
+            acc.violation("no_panic", None, info(format!("panicked: {}", m)));
+            return;
+        }
+        Ok(was_err) => {
+            if was_err != expect_err {
+                acc.violation("no_panic", None, info(format!("call returned {} but {} was expected", if was_err { "an error" } else { "Ok" }, if expect_err { "an error" } else { "Ok" })));
+                return;
+            }
+        }
+    }
+    if after_shape != shape {
+        acc.violation("lane_multiset", None, info(format!("the caller's array has shape {:?} after the call (axes exchanged or resized)", after_shape)));
+        return;
+    }
+    if expect_err {
+        if after != before {
+            acc.violation("erroring_call_modified", None, info("an erroring call changed the caller's array".into()));
+        }
+    } else {
+        // logical flat positions of each lane (row-major over the logical shape)
+        for (li, l) in lanes_of(&shape, axis).iter().enumerate() {
+            let mut b: Vec<(u8, u16)> = l.iter().map(|&i| before[i]).collect();
+            let mut c: Vec<(u8, u16)> = l.iter().map(|&i| after[i]).collect();
+            b.sort();
+            c.sort();
+            if b != c {
+                acc.violation("lane_multiset", None, info(format!("lane {} does not hold its former elements", li)));
+                return;
+            }
+        }
+    }
+    if total >= 2 {
+        acc.nontrivial(h64(&(&shape, axis, &layout, shared, single, errk, &before)));
+    }
+    acc.sample(|| info("sample".into()));
+}
+
 fn c03_tracked(rng: &mut Rng, acc: &mut Acc) {
     // n-D array of Tracked; routines: quantile(s)_axis_mut on the whole array; 1-D routines on one lane view
     let nd = *rng.pick(&[1usize, 2, 2, 3, 3, 4]);
@@ -1497,6 +1586,7 @@ fn main() {
         r.section("tracked_routines", n(30_000, 2_000_000), |_k, rng, acc| c03_tracked(rng, acc));
         r.section("arc_handles", n(3_000, 100_000), |_k, rng, acc| c03_arc(rng, acc));
         r.section("owned_elems", n(12_000, 600_000), |_k, rng, acc| c03_owned(rng, acc));
+        r.section("owned_arrays", n(12_000, 400_000), |_k, rng, acc| c03_owned_arrays(rng, acc));
         r.section("skipnan_quantile", n(12_000, 600_000), |k, rng, acc| {
             by_lane_type!(k as usize, c03_skipnan, rng, acc);
         });
